@@ -88,8 +88,8 @@ func getFfi(pkg *packages.Package) (string, error) {
 			ffis = append(ffis, ffi)
 		}
 		sort.Strings(ffis)
-		return "", fmt.Errorf("package %s uses multiple ffis: %s",
-			pkg.PkgPath, strings.Join(ffis, ", "))
+		return "", fmt.Errorf("package uses multiple ffis: %s",
+			strings.Join(ffis, ", "))
 	}
 	for ffi := range seenFfis {
 		return ffi, nil
